@@ -227,8 +227,11 @@ package core
 //@   modifies ghost(self).started, ghost(self).status
 //@   ensures ghost(self).started && (!old(ghost(self).started) ==> ghost(self).status == statusCode) && (old(ghost(self).started) ==> ghost(self).status == old(ghost(self).status))
 
+// unflushed: body bytes handed to the client's writer since the last flush (C18: live delivery)
+//@ ghost var unflushed int
 //@ extern (net/http.ResponseWriter).Write(b)
-//@   modifies ghost(self).started, ghost(self).status
+//@   modifies ghost(self).started, ghost(self).status, gvar unflushed
+//@   records unflushed = old(unflushed) + len(b)
 //@   ensures ghost(self).started && (!old(ghost(self).started) ==> ghost(self).status == 200) && (old(ghost(self).started) ==> ghost(self).status == old(ghost(self).status))
 
 //@ extern net/http.Error(w, error, code)
@@ -340,3 +343,29 @@ package core
 //@ extern encoding/json.Marshal(v)
 //@   trusted
 //@   ensures res1 == nil
+
+// ---- C18: stream-vs-buffer decision. The configured profile wins; in auto mode a known streaming content type
+// (SSE, NDJSON, ...) always streams.
+//@ spec func hdrGet(h http.Header, k string) string = ite(len(h[k]) > 0, h[k][0], "")
+//@ func isStreamingContentType
+//@   property C18
+//@   safety
+//@   loop 1 invariant forall k int :: 0 <= k && k < i$1 ==> !contains(contentType, streamingTypes[k])
+//@   ensures res <==> (exists k int :: 0 <= k && k < len(streamingTypes) && contains(contentType, streamingTypes[k]))
+//@ func isBinaryContentType
+//@   property C18
+//@   safety
+//@ func AutoDetectStreamingMode
+//@   property C18
+//@   safety
+//@   requires resp != nil && resp.Header != nil
+//@   ensures profile == "standard" ==> !res
+//@   ensures profile == "streaming" ==> res
+//@   ensures profile != "standard" && contains(lower(hdrGet(resp.Header, "Content-Type")), "text/event-stream") ==> res
+//@   ensures profile != "standard" && contains(lower(hdrGet(resp.Header, "Content-Type")), "application/x-ndjson") ==> res
+
+// io.Reader contract: 0 <= n <= len(p) (the bytes land in p: contents are not modelled)
+//@ extern (io.Reader).Read(p)
+//@   trusted
+//@   modifies ghost remaining
+//@   ensures 0 <= res0 && res0 <= len(p)
